@@ -11,7 +11,7 @@ ID = "C08"
 RULE = (
     "identifier x length 1..32 x triple (x, y, z) from the identifier's C08 domain (zeros included for eps-shifted metrics, probability vectors "
     "for bhattacharyya/KL/K-divergence), with forced classes: identical (same object and equal copy), parallel, one-dimensional, zero-containing, "
-    "all-zero, 1-ulp-apart, large/small magnitude. Oracle per the axiom table of DESIGN.md section 5: finite (47), symmetric (42), "
+    "all-zero, 1-ulp-apart, near-duplicate chains x, x+d, x+2d (d from 1e-12 to 1e-3), large/small magnitude. Oracle per the axiom table of DESIGN.md section 5: finite (47), symmetric (42), "
     "non-negative and d(x,x)=0 up to rounding (45), triangle (13). Tolerances: the rounding scale of section 5. "
     "non-trivial: x != y and the triple belongs to >= 1 forced class; distinct by hash of (name, triple)"
 )
@@ -33,11 +33,18 @@ def strategy(tier, shard=0, nshards=1):
         mag = draw(st.sampled_from([gen.MAG, gen.MAG, gen.MAG_SMALL, st.floats(1e3, 1e6), st.floats(1e-3, 1e-2)]))
         x, y, kind = draw(gen.vector_pair(dom, nmax=32, mag=mag))
         n = len(x)
-        zk = draw(st.sampled_from(["indep", "indep", "between", "x", "y", "allzero"]))
+        zk = draw(st.sampled_from(["indep", "indep", "between", "x", "y", "allzero", "chain", "chain"]))
         if zk == "indep":
             z = draw(gen.vector(dom, n, mag))
         elif zk == "between":
             z = gen._fix_domain(dom, [(a + b) / 2 for a, b in zip(x, y)], 1.0)
+        elif zk == "chain":
+            # near-duplicate chain x, x+d, x+2d with a tiny step: exposes tolerance-based (non-transitive) equality
+            step = draw(st.sampled_from([6e-9, 6e-7, 1e-12, 6e-5, 1e-3]))
+            sc = [abs(a) if (abs(a) >= 1.0 and draw(st.booleans())) else 1.0 for a in x]
+            y = gen._fix_domain(dom, [a + step * c_ for a, c_ in zip(x, sc)], 1.0)
+            z = gen._fix_domain(dom, [a + 2 * step * c_ for a, c_ in zip(x, sc)], 1.0)
+            kind = "chain"
         elif zk == "x":
             z = list(x)
         elif zk == "y":
